@@ -664,6 +664,49 @@ Definition predict (q : request) : expect :=
          end
   end.
 
+(* ---- which abstract requests are malformed (independent of the pipeline: a description of the INPUT) ---- *)
+Definition is_error_cls (c : cls) : bool := match c with C4xx | C5xx => true | _ => false end.
+Definition expect_is_error (e : expect) : bool :=
+  match e with Exact c => is_error_cls c | AnyError => true | AnyResponse => false end.
+
+(* a Zipkin span is malformed when a field cannot be decoded or an id is missing *)
+Definition zspan_malformed (s : zspan) : bool :=
+  match decode_zspan s with inr _ => true | inl ids => negb (id_ok ids) end.
+(* an OTLP span is malformed when its resource is absent, an attribute has no value, or an id has the wrong width *)
+Definition ospan_malformed (has_resource : bool) (s : ospan) : bool :=
+  negb has_resource || o_nilattr s || negb (id_ok (o_tid s, o_sid s)).
+Definition name_ok (name : string) : bool := match name_labels name with NameOk => true | _ => false end.
+Definition ingest_malformed (ct from until name : string) (wire_ok : bool) : bool :=
+  String.eqb from "" || String.eqb name "" || String.eqb until ""
+  || match ingest_select ct with
+     | None => true
+     | Some p =>
+         match parse_uint64 from with None => true | Some _ =>
+           (match p, parse_uint64 until with IPBinary, None => true | _, _ => false end)
+           || negb (name_ok name) || negb wire_ok
+         end
+     end.
+
+Definition body_malformed (q : request) : bool :=
+  match q_body q with
+  | BBytes => false
+  | BIngest from until name => ingest_malformed (q_ct q) from until name (q_wire_ok q)
+  | BZipkin _ spans => negb (q_wire_ok q) || existsb zspan_malformed spans
+  | BOtlp rs => negb (q_wire_ok q) || existsb (fun r => existsb (ospan_malformed (r_has_resource r)) (r_spans r)) rs
+  | BSnappy s fb => negb (if unsnappy_decodes s then q_wire_ok q else fb)
+  | BInflux p => negb (precision_ok p) || negb (q_wire_ok q)
+  | BLokiJson bad_ts => bad_ts || negb (q_wire_ok q)
+  end.
+
+Definition malformed (q : request) : bool :=
+  match q_body q with
+  | BBytes => false
+  | _ => match content_encoding (q_ce q) (q_gz_ok q) with
+         | CeStatus _ => true                    (* unsupported or undecodable Content-Encoding *)
+         | CeContinue => body_malformed q
+         end
+  end.
+
 (* ------------------------------------------------------------------------------------------ *)
 (** * 6. Observations, correspondence and the specification oracle *)
 
@@ -699,10 +742,15 @@ Definition snappy_limit_respected (q : request) (o : outcome) : bool :=
   end.
 
 (* the property's boolean oracle over what was OBSERVED *)
+(* "malformed or hostile input is answered with an error status" *)
+Definition malformed_rejected (q : request) (o : outcome) : bool :=
+  match o with O2xx => negb (malformed q) | _ => true end.
+
 Definition spec_ok (q : request) (ob : obs) : bool :=
   responded (ob_outcome ob) && ob_canary_ok ob
   && (ob_alloc_kb ob <=? alloc_bound_kb (ob_body_kb ob))%Z
-  && snappy_limit_respected q (ob_outcome ob).
+  && snappy_limit_respected q (ob_outcome ob)
+  && malformed_rejected q (ob_outcome ob).
 
 Definition model_mismatch (c : case) : bool := negb (accepts (predict (c_req c)) (ob_outcome (c_obs c))).
 Definition spec_violation (c : case) : bool := negb (spec_ok (c_req c) (c_obs c)).
